@@ -339,3 +339,13 @@ def run(ck, m):
     ck.ob('C17.d', short(mirror.id), 'mirror-notifies', bool(wrote) and bool(sent),
           'the mirror write of the connections key reaches the watcher notification' if wrote and sent else
           'mirror: writes key=%s notifies=%s' % (bool(wrote), bool(sent)), '%s:%s' % (mirror.file, mirror.line))
+    # ---- (h) selecting a database touches no subscription --------------------------------
+    ck.rule('C17.h', 'the watchers of $connections keep seeing its changes: the UseDb arm registers and removes no watcher (no write to any '
+                     'Watchers.map) — a session that selects the database it already uses must not lose its own subscriptions, or it stops '
+                     'hearing of the sessions that come and go afterwards')
+    effs_u, _raw_u = m.arm_effects('UseDb')
+    ww = sorted({'%s (%s)' % (short(ev.frame.body.id), ev.loc()) for ev, kind, info in effs_u if kind in ('watch-write', 'watch-bulk-write')})
+    ck.ob('C17.h', 'dispatcher', 'UseDb:leaves-subscriptions-alone', not ww,
+          'the UseDb arm writes no watcher list' if not ww else
+          'the UseDb arm changes watcher lists: %s — re-selecting the same database silently ends the session\'s subscriptions there' % ww[:3],
+          ww[0].split('(')[-1].rstrip(')') if ww else '')
